@@ -83,6 +83,7 @@ func init() {
 				{Scenario: "c12_finite", Params: mustJSON(FiniteParams{}), Bound: b, Shards: 8},
 				{Scenario: "c12_conc", Params: mustJSON(struct{}{}), Bound: b - 1, Shards: 8, Note: "transient end (node 0) and final end (node 1) concurrently with each other and with events on a third vBucket"},
 			}
+			out = append(out, Instance{Scenario: "c12_duringopen", Params: mustJSON(struct{}{}), Bound: b - 1, Shards: 4, Note: "a stream ends while Open() still waits for another vBucket (start-up and re-open after a rebalance)"})
 			for f := 1; f <= 5; f++ {
 				out = append(out, Instance{Scenario: "c12_reopenfail", Params: mustJSON(ReopenFailParams{Failures: f}), Bound: 0})
 			}
@@ -428,6 +429,113 @@ func init() {
 				vrt.Failf("vb0 does not deliver new events after its transient end")
 			}
 			vrt.SetOutcome(fmt.Sprintf("%s/%s/%d", tc.name, fc.name, len(e.Cons.Events)))
+		}}
+	}
+}
+
+// c12_duringopen: a vBucket whose stream is already open ends while Open() is still waiting for the stream
+// of another vBucket (slow round trip) - at the first start-up and at the re-open that ends a rebalance
+// (Close + Open). A transient end must be recovered by a re-open, a final end must be counted; in both
+// cases the session that Open() reports as started covers every vBucket that has not ended for good.
+func init() {
+	scenarios["c12_duringopen"] = func(raw json.RawMessage) *vrt.Scenario {
+		return &vrt.Scenario{Name: "c12_duringopen", FreeChoices: true, NoTimerAlt: true, MaxSteps: 400000, Main: func() {
+			resetGlobals()
+			o := EnvOpts{Vbs: 3, Nodes: 2, CheckpointType: "manual", WrapMeta: true}
+			c := NewCluster(&o)
+			e := NewEnv(c, o)
+			e.Cons.AutoAck = true
+			phase := vrt.Choose(2, true, "phase") // 0 first start-up, 1 the Open() that ends a rebalance
+			cause := endCauses[vrt.Choose(len(endCauses), true, "cause")]
+			slowVb := uint16(1 + vrt.Choose(2, true, "slow-vb"))
+			armed := false
+			c.Fault = func(r *gocbcore.SimRequest) gocbcore.SimAnswer {
+				if armed && r.Kind == "openstream" && r.Vb == slowVb {
+					armed = false
+					return gocbcore.SimAnswer{Kind: "delay", Delay: 2 * time.Second}
+				}
+				return gocbcore.SimAnswer{}
+			}
+			opened := false
+			nreq := 0
+			if phase == 0 {
+				armed = true
+				vrt.GoNamed("opener", func() {
+					e.Stream.Open()
+					opened = true
+				})
+			} else {
+				e.Stream.Open()
+				c.WaitIdle()
+				c.Append(0, marker(1, 1), symbolPacket("M", 1))
+				c.WaitIdle()
+				e.EH.On = func(n string) {
+					if n == "ARE" {
+						opened = true
+					}
+				}
+				armed = true
+				nreq = len(c.Requests)
+				vrt.GoNamed("rebalancer", func() { e.Stream.Rebalance() })
+				// the real Rebalance(): Close(false), then after the rebalance delay the re-open
+				for i := 0; i < 100 && c.StreamOpen(0); i++ {
+					vrt.Sleep(100 * time.Millisecond)
+				}
+			}
+			for i := 0; i < 1000 && !c.StreamOpen(0); i++ {
+				vrt.Sleep(100 * time.Millisecond)
+			}
+			vrt.Sleep(500 * time.Millisecond)
+			desc := fmt.Sprintf("%s: vb0 ends (%s) while Open() still waits for vb%d", []string{"start-up", "re-open after a rebalance"}[phase], cause.name, slowVb)
+			if opened || !c.StreamOpen(0) {
+				vrt.Failf("harness: %s: opened=%v vb0 open=%v", desc, opened, c.StreamOpen(0))
+				return
+			}
+			vrt.Window(true)
+			c.EndStream(0, cause.err)
+			vrt.Sleep(10 * time.Second)
+			vrt.Quiesce()
+			c.WaitIdle()
+			vrt.Quiesce()
+			vrt.Window(false)
+			if !opened {
+				vrt.Failf("%s: Open() has not returned; blocked: %v", desc, vrt.BlockedThreads())
+				return
+			}
+			reqs := 0
+			for _, r := range c.Requests[nreq:] {
+				if r.Kind == "openstream" && r.Vb == 0 {
+					reqs++
+				}
+			}
+			wantActive, wantReqs := int32(3), 2
+			if !cause.transient {
+				wantActive, wantReqs = 2, 1
+			}
+			if reqs != wantReqs {
+				vrt.Failf("%s: vb0 was requested %d times in this session, want %d", desc, reqs, wantReqs)
+			}
+			if c.StreamOpen(0) != cause.transient {
+				vrt.Failf("%s: afterwards vb0 is streamed = %v, want %v (the started session silently covers only part of the assignment)", desc, c.StreamOpen(0), cause.transient)
+			}
+			if !c.StreamOpen(1) || !c.StreamOpen(2) {
+				vrt.Failf("%s: vb1 streamed=%v vb2 streamed=%v", desc, c.StreamOpen(1), c.StreamOpen(2))
+			}
+			if got := activeCount(e); got != wantActive {
+				vrt.Failf("%s: active stream count %d, want %d", desc, got, wantActive)
+			}
+			if vrt.Closed(e.StopCh) {
+				vrt.Failf("%s: the client stopped on its own", desc)
+			}
+			if cause.transient {
+				before := len(e.Cons.Events)
+				c.Append(0, marker(2, 2), symbolPacket("M", 2))
+				c.WaitIdle()
+				if len(e.Cons.Events) == before {
+					vrt.Failf("%s: vb0 no longer delivers events", desc)
+				}
+			}
+			vrt.SetOutcome(desc)
 		}}
 	}
 }
